@@ -66,6 +66,7 @@ func (sc *c12Scenario) String() string {
 //	UNREG  Store.UnregisterDB           DISABLE/ENABLE Store.DisableDB/EnableDB
 //	CLOSE  DB.Close                     CLOSEX DB.Close(already-cancelled ctx)   SCLOSE Store.Close
 //	SYNCDB Store.SyncDB(wait=true)      W      application INSERT (own statement = one atomic step)
+//	POS    DB.Pos (position query outside the sync executor)   CMP2   Store.CompactDB(level 2)
 //	TXC/TXR application transaction BEGIN IMMEDIATE; INSERT; yield; INSERT; yield; COMMIT|ROLLBACK on a second connection
 var c12Pairs = func() []*c12Scenario {
 	core := []string{"SYNC", "CKP", "CKT", "FSNAP", "CMP1", "RETL0", "CLOSE", "RSET", "W"}
@@ -130,6 +131,12 @@ var c12Pairs = func() []*c12Scenario {
 	// concurrency; the Store's level monitors all fire at start-up)
 	out = append(out, &c12Scenario{Name: "compact1-vs-compact2-cold-cache", Prefix: strings.Fields("W3 SW W1 SW CMP:1 W1 SW W1 S W1"),
 		Setup: []string{"DISABLE", "ENABLE"}, Threads: [][]string{{"CMP1"}, {"CMP2"}}, Retention: true, Suffix: []string{"W", "SW", "CMP1", "CMP2"}})
+	// a position query from outside the sync executor (GET /txid, the monitors) while the position cache is cold
+	// (object just re-opened) against a sync that publishes a new position; then the next commit is replicated
+	out = append(out, &c12Scenario{Name: "pos-vs-syncwait-cold-cache", Prefix: base, Setup: []string{"DISABLE", "ENABLE", "W"},
+		Threads: [][]string{{"POS"}, {"SW"}}, Suffix: []string{"W", "SW"}})
+	out = append(out, &c12Scenario{Name: "pos-vs-sync-cold-cache", Prefix: base, Setup: []string{"DISABLE", "ENABLE", "W"},
+		Threads: [][]string{{"POS"}, {"SYNC", "RSYNC"}}, Suffix: []string{"W", "SW"}})
 	// application transaction against sync and checkpoints (C02 half)
 	out = append(out, mk("TXC", "SYNC"), mk("TXC", "CKT"), mk("TXR", "SYNC"), mk("TXC", "FSNAP"))
 
@@ -402,6 +409,12 @@ func (w *c12World) Op(ti int, op string) string {
 		return "ok"
 	case "DIAG":
 		_ = s.DB.SyncDiagnostic()
+		return "ok"
+	case "POS":
+		// what the /txid handler, the replica monitor and the snapshot monitor do outside the sync executor
+		if _, err := s.DB.Pos(); err != nil {
+			return c12Class(err)
+		}
 		return "ok"
 	case "LIST":
 		// what every store-wide pass does (compaction / retention / heartbeat monitors, the list and status
